@@ -35,6 +35,13 @@ theorem preexisting_file_kept_under_numbered_suffix (fs : FS) (p c0 c : String) 
     ∃ k, isFile fs (bakName p k) = false ∧ readFile (guardedWrite fs p c) (bakName p k) = some c0 :=
   guardedWrite_keeps_old h c
 
+/-- the suffix is the least number ≥ 1 not in use (what the unbounded `while os.path.isfile(...)` loop of
+    the source finds; the model's bounded search provably never runs out of fuel) -/
+theorem backup_suffix_is_least_free (fs : FS) (p : String) (hp : isFile fs p = true) :
+    let k := firstFree fs p fs.length 1
+    1 ≤ k ∧ isFile fs (bakName p k) = false ∧ ∀ j, 1 ≤ j → j < k → isFile fs (bakName p j) = true :=
+  ⟨(firstFree_least fs p fs.length 1).1, firstFree_free hp, (firstFree_least fs p fs.length 1).2⟩
+
 /-- no other file of the directory is renamed, removed or rewritten -/
 theorem other_files_untouched (fs : FS) (p : String) (ws : List String) (n : String) (hn : n ≠ p)
     (hf : isFile fs n = true) : readFile (guardedWrites fs p ws) n = readFile fs n :=
